@@ -1,4 +1,4 @@
-From PGF Require Import Base.Prelude Base.PyStr Model.ProteinGroups Model.Grouping.
+From PGF Require Import Base.Prelude Base.PyStr Model.ProteinGroups Model.Grouping Model.GroupingCheck.
 
 (* mode: 0 = subset, 1 = no grouping, 2 = pseudo-gene *)
 Definition run03 (c : nat * pmap) : list (list str) :=
@@ -7,4 +7,10 @@ Definition run03 (c : nat * pmap) : list (list str) :=
   | 1 => no_grouping (snd c)
   | _ => pseudo_gene_grouping (snd c)
   end.
-Definition chk03 (c : (nat * pmap) * list (list str)) : bool := eqb (run03 (fst c)) (snd c).
+(* model agreement and, in pseudo-gene mode, the proved-sound component checker applied to the implementation's own groups *)
+Definition chk03 (c : (nat * pmap) * list (list str)) : bool :=
+  eqb (run03 (fst c)) (snd c) &&
+  match fst (fst c) with
+  | 0 | 1 => true
+  | _ => components_ok (snd (fst c)) (snd c)
+  end.
